@@ -26,7 +26,9 @@ import (
 	"verifharness/vp"
 )
 
-const ttl = 10 * time.Minute
+// ttl is the time-to-live the caches are built with (a pass of TestCheck sets
+// it to zero: "no retention", which the option accepts)
+var ttl = 10 * time.Minute
 
 var (
 	pP = fixture.Key("ed25519", 0).ID
@@ -234,6 +236,9 @@ var (
 	// viaHTTP: the cache reads its sources through the library's HTTP source
 	// (WithClient + WithSourceURL) instead of being handed them directly
 	viaHTTP = false
+	// behindRedirect (with viaHTTP): the sources are reached through a
+	// redirecting front host and made with NewHTTPSource(url, nil)
+	behindRedirect = false
 	// fillers: further providers that the first source always lists
 	fillers = 0
 	// observeReadOnly: after every operation of a sequence the cache's
@@ -337,7 +342,32 @@ func runSequence(t *testing.T, seq []op) (v *violation) {
 				defer stop()
 				urls = append(urls, "http://"+host)
 			}
-			popts = append([]pcache.Option{pcache.WithClient(n.Client()), pcache.WithSourceURL(urls...)}, popts...)
+			if behindRedirect {
+				// every source is named by the URL of a front host that answers
+				// with a temporary redirect to the host that has the data, and
+				// is made by the caller with NewHTTPSource and no client of its
+				// own (the process-wide default client, here over the in-memory
+				// network)
+				restore := n.InstallDefault()
+				defer restore()
+				var hsrcs []pcache.ProviderSource
+				for i := range srcs {
+					target := urls[i]
+					front := fmt.Sprintf("front%d.test:80", i)
+					stop := n.Serve(front, http.HandlerFunc(func(w http.ResponseWriter, req *http.Request) {
+						http.Redirect(w, req, target+req.URL.Path, http.StatusTemporaryRedirect)
+					}))
+					defer stop()
+					hs, err := pcache.NewHTTPSource("http://"+front, nil)
+					if err != nil {
+						panic(err)
+					}
+					hsrcs = append(hsrcs, hs)
+				}
+				popts = append(popts, pcache.WithSource(hsrcs...))
+			} else {
+				popts = append([]pcache.Option{pcache.WithClient(n.Client()), pcache.WithSourceURL(urls...)}, popts...)
+			}
 		} else {
 			popts = append(popts, pcache.WithSource(psrcs...))
 		}
@@ -611,7 +641,7 @@ func mustParse(s string) time.Time {
 
 func TestCheck(t *testing.T) {
 	r := vp.New("C06", "model_checking",
-		"every sequence of <= depth operations over the alphabet {per-source content changes of provider P (appear, advance, regress on the other source, disappear, without time) and Q, source failure toggles, Refresh, Refresh cancelled while source 0 / source 1 is being read, Refresh overlapped by a second Refresh issued inside a source call, Get of P / Q / a never-reported provider, List, clock advances of ttl/2 and ttl+1s}, each run on a fresh real ProviderCache with two fake sources inside a synctest bubble (virtual clock), compared after every step with a reference model (freshest record ever handed to the cache per provider, first-unreported time, negative entries, Fetch call counts); plus a lifecycle layer of macro steps (change what the sources report for one provider, let 0 / ttl/2 / ttl+1s pass, Refresh): every sequence of 6 (quick) / 7 (thorough) macro steps with one source and of 4 / 5 with two sources, which reaches appear - disappear - reappear - expire histories of 15-25 flat operations; and the flat sequences once more, one operation shallower, with the three advertisement times rendered with a zone offset, in UTC and with fractional seconds, so that the strings sort in the opposite order of the instants; the same depth once more with three sources (alphabet: the third source's content changes and failure, refreshes cancelled while the second / the third source is being read, Get, clock advance) and with the two-source alphabet on a cache constructed with preload, and on one with the automatic-refresh interval set to a value that never falls due (everything must be as with the interval off), and with every source behind the library's own HTTP source (pcache.WithSourceURL; an in-memory server per source), the last three also with the lifecycle layer one / two macro steps shallower (appear - disappear - expire histories). states = distinct sequences; transitions = operations executed; traces = sequences executed on the real cache. Every Get is followed by a GetResults of the same provider, which has to agree with it (a result list led by the provider, or nothing) without asking a source; providers that have just gone from the listing are looked up too. A last pass repeats the alphabet and the lifecycles with three further providers that the first source always lists (the update map is then not merged at every refresh), and once more with the read-only observers Len and List called between the operations of every sequence (their results are not judged; what follows must be as without them).",
+		"every sequence of <= depth operations over the alphabet {per-source content changes of provider P (appear, advance, regress on the other source, disappear, without time) and Q, source failure toggles, Refresh, Refresh cancelled while source 0 / source 1 is being read, Refresh overlapped by a second Refresh issued inside a source call, Get of P / Q / a never-reported provider, List, clock advances of ttl/2 and ttl+1s}, each run on a fresh real ProviderCache with two fake sources inside a synctest bubble (virtual clock), compared after every step with a reference model (freshest record ever handed to the cache per provider, first-unreported time, negative entries, Fetch call counts); plus a lifecycle layer of macro steps (change what the sources report for one provider, let 0 / ttl/2 / ttl+1s pass, Refresh): every sequence of 6 (quick) / 7 (thorough) macro steps with one source and of 4 / 5 with two sources, which reaches appear - disappear - reappear - expire histories of 15-25 flat operations; and the flat sequences once more, one operation shallower, with the three advertisement times rendered with a zone offset, in UTC and with fractional seconds, so that the strings sort in the opposite order of the instants; the same depth once more with three sources (alphabet: the third source's content changes and failure, refreshes cancelled while the second / the third source is being read, Get, clock advance) and with the two-source alphabet on a cache constructed with preload, and on one with the automatic-refresh interval set to a value that never falls due (everything must be as with the interval off), and with every source behind the library's own HTTP source (pcache.WithSourceURL; an in-memory server per source), the last three also with the lifecycle layer one / two macro steps shallower (appear - disappear - expire histories). states = distinct sequences; transitions = operations executed; traces = sequences executed on the real cache. Every Get is followed by a GetResults of the same provider, which has to agree with it (a result list led by the provider, or nothing) without asking a source; providers that have just gone from the listing are looked up too. The HTTP pass is repeated with every source behind a redirecting front host and made with NewHTTPSource and the default client. One pass runs the alphabet at full depth on caches with a time-to-live of zero. A last pass repeats the alphabet and the lifecycles with three further providers that the first source always lists (the update map is then not merged at every refresh), and once more with the read-only observers Len and List called between the operations of every sequence (their results are not judged; what follows must be as without them).",
 		"reference model is the oracle (trusted; written from the statement); nothing is asserted right after a refresh that returned an error, only after the next successful one",
 		"expiry is asserted only in histories in which every source responded in every refresh since the provider was last reported",
 		"records are compared by advertisement time, not identity (equal times are not ordered by the statement)",
@@ -713,6 +743,20 @@ func TestCheck(t *testing.T) {
 	preload, refreshInterval, viaHTTP, keyPrefix = false, 0, true, "http-sources|"
 	rec(nil)
 	lifecycle(t, r, thorough, 2)
+	// the same with every source behind a redirecting front host, made by the
+	// caller with NewHTTPSource and the default client
+	behindRedirect, keyPrefix = true, "http-sources-behind-a-redirect|"
+	rec(nil)
+	behindRedirect = false
+	// a time-to-live of zero (accepted by the option): a provider that is no
+	// longer reported goes at the next refresh at which any time has passed;
+	// everything else is as with any other time-to-live
+	ttl, keyPrefix = 0, "ttl-zero|"
+	depth++
+	rec(nil)
+	depth--
+	lifecycle(t, r, thorough, 1)
+	ttl = 10 * time.Minute
 	// seventh pass: three further providers that the first source always
 	// lists, so that one or two changed providers do not make the cache merge
 	// its update map into the main map (removal markers and updates stay in
